@@ -65,6 +65,10 @@ type ixScenario struct {
 	Names  int
 	Caches [][]string // per name (1-based index-1): backend kinds of its deleters
 	Ops    []ixOp
+	// Embedded != "": the index under test is the one EMBEDDED in a backend of this kind (ShardedMap, SyncMap and
+	// ShardedMapOf each create an InvalidationIndex with themselves registered under "default"); no deleter can be made to
+	// fail there, labels are added through AddInvalidationLabels
+	Embedded string
 }
 
 func (s ixScenario) opsString() string {
@@ -78,10 +82,17 @@ func (s ixScenario) opsString() string {
 func genIx(seed int64, idx int, tier string) ixScenario {
 	rng := rand.New(rand.NewSource(seed*7777 + int64(idx)*131 + 5))
 	sc := ixScenario{Names: 1 + rng.Intn(2)}
+	if idx%5 == 3 {
+		sc.Embedded = kinds[(idx/5)%3]
+		sc.Names = 1
+	}
 	for n := 0; n < sc.Names; n++ {
 		var ks []string
 		for c := 0; c < 1+rng.Intn(2); c++ {
 			ks = append(ks, kinds[rng.Intn(3)])
+		}
+		if sc.Embedded != "" {
+			ks = []string{sc.Embedded}
 		}
 		sc.Caches = append(sc.Caches, ks)
 	}
@@ -114,7 +125,7 @@ func genIx(seed int64, idx int, tier string) ixScenario {
 				ls = append(ls, 1+rng.Intn(nLabels+1)) // may name an unknown label, may repeat
 			}
 			op := ixOp{Kind: "inval", Labels: ls, Fault: -1}
-			if rng.Intn(2) == 0 {
+			if rng.Intn(2) == 0 && sc.Embedded == "" {
 				op.Fault = rng.Intn(6)
 				op.Retry = rng.Intn(3) != 0
 				op.Mid = rng.Intn(4) == 0
@@ -203,7 +214,14 @@ func runIxScenario(d *Driver, id string, sc ixScenario, res *Result) *seqFail {
 			backs = append(backs, b)
 			did := len(backs)
 			didName[did] = n
-			ix.AddCache(nameStr[n], &ixDeleter{inner: b, did: did, run: run})
+			if sc.Embedded != "" {
+				ix = b.Index() // (the constructor registered the cache itself under "default")
+				if ix == nil {
+					return &seqFail{"monitor", "C15", "inval:no-embedded-index", "the " + kind + " backend was constructed without its invalidation index", 0, nil}
+				}
+			} else {
+				ix.AddCache(nameStr[n], &ixDeleter{inner: b, did: did, run: run})
+			}
 			d.Ask(fmt.Sprintf("ix addcache %s %d %d", id, n, did))
 		}
 	}
@@ -493,6 +511,13 @@ func runIxScenario(d *Driver, id string, sc ixScenario, res *Result) *seqFail {
 			okb = 0
 		}
 		impl := fmt.Sprintf("n=%d ok=%d calls=%d", n, okb, run.calls)
+		if sc.Embedded != "" {
+			// the delete calls of the embedded index go to the cache itself and cannot be counted
+			impl = fmt.Sprintf("n=%d ok=%d", n, okb)
+			if j := strings.Index(r, " calls="); j >= 0 {
+				r = r[:j]
+			}
+		}
 		if r != impl && firstCorr == nil {
 			firstCorr = &seqFail{"correspondence", "", "inval:result", fmt.Sprintf("op #%d %s: impl %q model %q", i, op, impl, r), i, nil}
 			midUsed = true
@@ -509,7 +534,11 @@ func runIxScenario(d *Driver, id string, sc ixScenario, res *Result) *seqFail {
 				ls[j] = fmt.Sprintf("L%d", l)
 			}
 			buf := keyBytes(op.Key)
-			ix.AddLabels(nameStr[op.Name], buf, ls...)
+			if sc.Embedded != "" && i%2 == 0 {
+				ix.AddInvalidationLabels(buf, ls...)
+			} else {
+				ix.AddLabels(nameStr[op.Name], buf, ls...)
+			}
 			for j := range buf {
 				buf[j] ^= 0x33 // caller reuses the key buffer (C09)
 			}
@@ -584,7 +613,7 @@ func runC15(o Opts) *Result {
 		f := runIxScenario(d, fmt.Sprintf("x%d", idx), sc, res)
 		res.TracesValidated++
 		if len(res.Samples) < 3 {
-			res.Samples = append(res.Samples, map[string]interface{}{"caches": sc.Caches, "ops": sc.opsString()})
+			res.Samples = append(res.Samples, map[string]interface{}{"caches": sc.Caches, "ops": sc.opsString(), "embedded_index_of": sc.Embedded})
 		}
 		if res.Distribution["inval:retry"] > before {
 			h := fnv.New64a()
@@ -611,7 +640,7 @@ func runC15(o Opts) *Result {
 			}
 		}
 		res.Violations = append(res.Violations, Violation{Property: f.prop, Kind: f.kind, Sig: f.sig, Detail: f.detail,
-			Replay: map[string]interface{}{"engine": "inval", "profile": "c15", "seed": o.Seed, "index": idx, "caches": min.Caches,
+			Replay: map[string]interface{}{"engine": "inval", "profile": "c15", "seed": o.Seed, "index": idx, "caches": min.Caches, "embedded_index_of": min.Embedded,
 				"ops": min.opsString(), "original_ops": sc.opsString(), "driver_log_tail": tail(d.Log, 20),
 				"rerun": fmt.Sprintf("harness inval -profile c15 -seed %d -only %d", o.Seed, idx)}})
 		if f.kind != "correspondence" {
